@@ -7,7 +7,7 @@ the tips must be afterwards; every branch and repository is reached through the 
 order of the `last-revision` writes of a bound commit is observed, not inferred.
 
 Fault half: one bound commit, re-executed on fresh copies with a transport error / a simulated process
-stop injected at the mutating transport operations around (thorough: at all of) the two tip writes:
+stop injected at the mutating transport operations around the two tip writes plus a sample of the others:
 the master may end up ahead of the checkout, the checkout never ahead of the master, and a tip never
 names a revision its repository does not have.
 """
@@ -30,11 +30,12 @@ LEVEL_TEXT = ("generated programs (commit in master, in two heavyweight and one 
 RULE = ("program case = 10-14 (quick) / 20-40 (thorough) ops drawn with weights over {commit x 4 trees, commit --local, update, pull master, pull sibling, unbind, bind}; one "
         "evaluation per executed op; non-trivial = op whose outcome depends on the relative histories (bound commit, refusal, update/pull that moves a tip, --local); "
         "distinct = (op, outcome class, relation of local and master tips before). fault case = (kind, position) over the mutating ops of one bound commit")
-CASES = {"quick": 48, "thorough": 640}
-BUDGET_S = {"quick": 150, "thorough": 640}
-MIN_EVALS = {"quick": 250, "thorough": 2500}
-FLOORS = {"quick": {"bound_commit_ok": 25, "order_monitor": 25, "refusal_unchanged": 15, "local_commit": 10, "update_sync": 20, "pull_sync": 8, "fault_runs": 60, "fault_after_master_before_local": 10},
-          "thorough": {"bound_commit_ok": 250, "order_monitor": 250, "refusal_unchanged": 150, "local_commit": 100, "update_sync": 200, "pull_sync": 80, "fault_runs": 600, "fault_after_master_before_local": 60}}
+CASES = {"quick": 48, "thorough": 400}
+BUDGET_S = {"quick": 150, "thorough": 600}
+MIN_EVALS = {"quick": 250, "thorough": 1500}
+FLOORS = {"quick": {"bound_commit_ok": 25, "order_monitor": 25, "refusal_unchanged": 15, "ood_same_revno": 3, "local_commit": 10, "update_sync": 20, "pull_sync": 8, "fault_runs": 60, "fault_after_master_before_local": 10},
+          "thorough": {"bound_commit_ok": 150, "order_monitor": 150, "refusal_unchanged": 100, "ood_same_revno": 15, "local_commit": 80, "update_sync": 150, "pull_sync": 50,
+                       "fault_runs": 400, "fault_after_master_before_local": 40}}
 ASSUMPTIONS = ["the model's ancestry relation is computed from the parents the harness itself observed at each commit",
                "fault model: one TransportError-class exception instead of the k-th mutating transport operation, or a process stop before it (C04's crash model); "
                "working-tree (dirstate) writes do not go through a transport and are not fault points",
@@ -235,11 +236,20 @@ def program_case(ctx):
     nops = rng.randint(10, 14) if ctx.tier == "quick" else rng.randint(20, 40)
     names, weights = [o for o, _ in OPS], [x for _, x in OPS]
     prog = []
+    queue = []
     ctx.info = {"program": prog, "fmt": fmt}
     for step in range(nops):
         op, t = rng.choices(names, weights)[0].split(":")
+        if queue:
+            op, t = queue.pop(0)
+        elif rng.random() < 0.06:
+            # macro: a local commit and one commit through the sibling, then a bound commit: diverged at equal revnos
+            c = rng.choice(CHECKOUTS)
+            o = "c2" if c == "c1" else "c1"
+            op, t = "update", c
+            queue.extend([("update", o), ("commit-local", c), ("commit", o), ("commit", c)])
         lagging = [c for c in CHECKOUTS if mdl.bound[c] and mdl.rel(c) in ("ahead", "diverged")]
-        if lagging and rng.random() < 0.3:
+        if lagging and not queue and rng.random() < 0.3:
             op, t = "update", rng.choice(lagging)  # local commits waiting to become pending merges
         prog.append("%s:%s" % (op, t))
         before = w.observe()
@@ -310,6 +320,11 @@ def _do_commit(ctx, rng, w, mdl, t, local, before, detail):
                  % (" --local" if local else "", t, rel, mdl.bound.get(t), out, expect), detail, stop=True)
     if out != "ok":
         ctx.count("refusal_unchanged")
+        if out == "BoundBranchOutOfDate":
+            same = before["tip"][t][0] == before["tip"]["m"][0]
+            ctx.hist("commit:BoundBranchOutOfDate:%s:%s" % (rel, "same-revno" if same else "other-revno"))
+            if same:
+                ctx.count("ood_same_revno")
         _unchanged(ctx, before, after, "commit:refused-but-changed:" + out, "commit refused with " + out, detail)
         ctx.check(not tw, "commit:refused-but-wrote-tip:" + out, "refused commit wrote %r" % [e.path for e in tw], detail)
         ctx.note(("commit", t, local, out, rel, len(parents), tuple(sorted(mdl.bound.items()))), nontrivial=True)
@@ -521,7 +536,10 @@ def fault_case(ctx):
         rng.shuffle(rest)
         ks |= set(rest[:4])
     else:
-        ks = set(range(1, nm + 1))
+        ks = set(range(max(1, km - 3), min(nm, kl + 3) + 1))
+        rest = [k for k in range(1, nm + 1) if k not in ks]
+        rng.shuffle(rest)
+        ks |= set(rest[:16])
     ctx.hist("fault:mutating-ops-in-bound-commit=%d" % (nm // 10 * 10))
     ctx.hist("fault:ops-between-tip-writes=%d" % (kl - km - 1))
     kinds = [("error:TransportError", lambda ev: terr.TransportError("injected at %s %s" % (ev.op, ev.path))),
